@@ -41,6 +41,8 @@ pub struct ServerParams {
     pub per_long: bool,
     pub license_kind: u8,
     pub license_blob: Vec<u8>,
+    /// the server speaks TLS 1.2 at most (many deployed servers do); only with the RSA fixtures
+    pub tls12: bool,
     pub license_sec_extra: u16,
     /// LICENSE_PREAMBLE flags: version 2.0 / 3.0 in the low nibble, EXTENDED_ERROR_MSG_SUPPORTED (0x80) on top
     pub license_flags: u8,
@@ -82,6 +84,7 @@ impl ServerParams {
             per_long: false,
             license_kind: 1,
             license_blob: vec![],
+            tls12: false,
             license_sec_extra: 0,
             license_flags: 0x03,
             share_id: 0x000103ea,
@@ -144,6 +147,7 @@ impl ServerParams {
         let bl = match ctx.choose("blob_len_c", 3) { 0 => 0, 1 => ctx.choose("blob_len", 16) as usize, _ => ctx.choose("blob_len", 600) as usize };
         p.license_blob = ctx.bytes("blob", bl.min(8)).into_iter().cycle().take(bl).collect();
         p.license_sec_extra = if ctx.chance("lic_0200", 1, 3) { 0x0200 } else { 0 };
+        p.tls12 = ctx.chance("tls12_server", 1, 3);
         p.license_flags = *ctx.pick("lic_preamble_flags", &[0x03u8, 0x03, 0x03, 0x83, 0x83, 0x02, 0x82]);
         p.share_id = match ctx.choose("share_id_c", 4) { 0 => 0x000103ea, 1 => 0, 2 => 0xffffffff, _ => ctx.choose("share_id", 1 << 32) as u32 };
         p.source_desc = match ctx.choose("src_desc", 4) { 0 => b"RDP\0".to_vec(), 1 => vec![], 2 => b"MSTSC\0".to_vec(), _ => { let n = ctx.choose("src_len", 40) as usize; vec![b'x'; n] } };
